@@ -250,7 +250,7 @@ def render(e, rng, p_paren=0.6):
     def sub(c, force=False, simple_only=False):
         t = render(c, rng, p_paren)
         need = c[0] in ("op", "neg", "not")
-        if (need and (force or rng.random() < p_paren)) or (simple_only and contains_expr_level(c)):
+        if (need and (force or rng.random() < p_paren or has_splittable(c))) or (simple_only and contains_expr_level(c)):
             return [S("(")] + t + [S(")")]
         if not need and rng.random() < 0.04:
             return [S("(")] + t + [S(")")]
@@ -290,6 +290,18 @@ def render(e, rng, p_paren=0.6):
     if k == "query":
         return [("kw", "QUERY"), S("("), ("id", e[1]), S("<*")] + render(e[2], rng, p_paren) + [S("|")] + render(e[3], rng, p_paren) + [S(")")]
     raise ValueError(e)
+
+
+def has_splittable(e):
+    """a string literal exppp may split sits on the operator spine: keep the parentheses so that it stays where
+    keep_split_safe() allowed it"""
+    if e[0] == "str":
+        return "." in e[1]
+    if e[0] == "op":
+        return has_splittable(e[2]) or has_splittable(e[3])
+    if e[0] in ("neg", "not"):
+        return has_splittable(e[1])
+    return False
 
 
 def contains_expr_level(e):
